@@ -3,9 +3,12 @@ package main
 import (
 	"bytes"
 	"fmt"
+	"io"
+	"net"
 	"sort"
 	"strconv"
 	"strings"
+	"time"
 
 	"github.com/cybergarage/go-redis/redis"
 	"verif/double"
@@ -18,8 +21,9 @@ import (
 )
 
 var c11 struct {
-	seed uint64
-	tier string
+	seed  uint64
+	tier  string
+	nPipe int
 }
 
 func c11get(idx int) pipeCase {
@@ -99,7 +103,93 @@ func sortedGroup(cs []double.Call) string {
 	return strings.Join(ss, " | ")
 }
 
+// c11tcp: on a real TCP connection the replies to the complete requests are DELIVERED, not only written: a client
+// sends four ECHO requests with 4 MiB arguments and then a request that is cut off inside, half-closes, and reads
+// its replies slowly (so that the server meets the cut-off request while replies are still in its send queue). It
+// must receive every reply byte and then the end of the stream - a reset that discards queued replies loses answers
+// to requests that were received completely.
+func c11tcp(idx int) run.Result {
+	var res run.Result
+	res.Idx = idx
+	res.Classes = []string{"tcp:large-replies-queued-when-the-cut-request-is-met"}
+	res.Key = gen.Hash64([]byte(fmt.Sprint("c11tcp", idx)))
+	res.NonTrivial = true
+	r := rng.New(c11.seed, rng.Str("C11tcp"), uint64(idx))
+	rec := double.NewRec()
+	srv := newServer(rec)
+	port := 0
+	for attempt := 0; attempt < 10 && port == 0; attempt++ {
+		port = freePort()
+		srv.SetPort(port)
+		if srv.Start() != nil {
+			port = 0
+		}
+	}
+	if port == 0 {
+		res.Inconclusive = "could not start a listener"
+		return res
+	}
+	defer srv.Stop()
+	c, err := net.DialTimeout("tcp", fmt.Sprintf("127.0.0.1:%d", port), 5*time.Second)
+	if err != nil {
+		res.Inconclusive = "client could not connect"
+		return res
+	}
+	defer c.Close()
+	const n, size = 4, 4 << 20
+	var stream []byte
+	want := 0
+	for i := 0; i < n; i++ {
+		arg := r.Bytes(size)
+		stream = append(stream, resp.Encode(resp.CmdB([]byte("ECHO"), arg))...)
+		want += len(resp.Encode(resp.Bulk(arg)))
+	}
+	cut := rng.Pick(r, []string{"*2\r\n$4\r\nECHO\r\n$5\r\nhel", "*2\r\n$4\r\nECHO\r\n", "*2\r\n$3\r\nGET\r\n$1", "*1\r\n$4\r\nPI"})
+	stream = append(stream, cut...)
+	go func() {
+		c.SetWriteDeadline(time.Now().Add(60 * time.Second))
+		c.Write(stream)
+		if tc, ok := c.(*net.TCPConn); ok {
+			tc.CloseWrite()
+		}
+	}()
+	got := 0
+	buf := make([]byte, 32<<10)
+	var rerr error
+	for {
+		sconn.NextSeq()
+		c.SetReadDeadline(time.Now().Add(30 * time.Second))
+		k, err := c.Read(buf)
+		got += k
+		if err != nil {
+			rerr = err
+			break
+		}
+		if got%(1<<20) < len(buf) {
+			time.Sleep(2 * time.Millisecond) // a slow reader (no verdict depends on this)
+		}
+	}
+	res.Count("tcp_reply_bytes_received", int64(got))
+	desc := map[string]any{"requests": fmt.Sprintf("%d x ECHO <%d bytes>, then the cut-off request %q, then half-close", n, size, cut), "reply_bytes_expected": want, "reply_bytes_received": got, "read_ended_with": fmt.Sprint(rerr)}
+	if ne, ok := rerr.(net.Error); ok && ne.Timeout() {
+		res.Inconclusive = "watchdog: the replies did not arrive within 30 s"
+		return res
+	}
+	if got != want || rerr != io.EOF {
+		res.Violate("C11:tcp:replies-to-complete-requests-lost", "every request fully received before the cut is executed and answered exactly once", fmt.Sprintf("the client received %d of %d reply bytes and then %v", got, want, rerr), desc)
+		return res
+	}
+	if calls := rec.Snapshot(); len(calls) != 0 {
+		// ECHO is answered by the framework itself: any handler call stems from the cut-off request
+		res.Violate("C11:tcp:partial-request-executed", "a request the stream ends inside is not executed", fmt.Sprintf("handler calls: %v", callStrs(calls)), desc)
+	}
+	return res
+}
+
 func c11run(idx int) run.Result {
+	if idx >= c11.nPipe {
+		return c11tcp(idx)
+	}
 	var res run.Result
 	res.Idx = idx
 	pc := c11get(idx)
@@ -289,10 +379,14 @@ func init() {
 		Assumptions: []string{"the scripted connection delivers all bytes before the cut even when the ending is a reset (a real RST may discard unread data; then fewer requests are complete)"},
 		Setup: func(tier string, seed uint64) int {
 			c11.seed, c11.tier = seed, tier
-			return map[string]int{"quick": 240, "thorough": 20000}[tier]
+			c11.nPipe = map[string]int{"quick": 240, "thorough": 20000}[tier]
+			return c11.nPipe + map[string]int{"quick": 4, "thorough": 40}[tier]
 		},
 		Run: c11run,
 		Describe: func(idx int) any {
+			if idx >= c11.nPipe {
+				return map[string]any{"sig": "tcp", "idx": idx}
+			}
 			pc := c11get(idx)
 			return map[string]any{"sig": cmdName(pc.Reqs[0].Req), "requests": reqStrings(pc.values())}
 		},
